@@ -176,31 +176,13 @@ def run(repo, res):
            sample='%s accessed only inside Project' % ', '.join(p for p in priv if 'norm' not in p))
 
     # ---- R3 the per-request cache cannot resurrect a stale entry ----------------------------------------------
-    stores = [n for n in ast.walk(gm) if isinstance(n, ast.Assign) and unparse(n.targets[0]).startswith('self._context_cache[')]
-    for st in stores:
-        # must be in the else-branch of `if m.changed` (or after an early exit when changed)
-        p = getattr(st, '_parent', None)
-        ok = False
-        while p is not None and p is not gm:
-            if isinstance(p, ast.If) and '.changed' in unparse(p.test):
-                neg = unparse(p.test).startswith('not ')
-                in_body = any(st is s or st in ast.walk(s) for s in p.body)
-                ok = (neg and in_body) or (not neg and not in_body)
-            p = getattr(p, '_parent', None)
-        res.check('C09-R3', '_context_cache store `%s`' % unparse(st)[:50], ok, PROJECT, st.lineno,
-                  'the per-request cache may only receive a module that has just passed the validity test (not m.changed)')
-    others = []
-    for rel, tree in repo.trees.items():
-        for n in ast.walk(tree):
-            if isinstance(n, ast.Subscript) and isinstance(n.ctx, ast.Store) and unparse(n.value).endswith('._context_cache') \
-                    and qualname(n) != 'Project.get_module':
-                others.append((rel, n.lineno))
-    res.check('C09-R3', '_context_cache writers', not others, PROJECT, others[0][1] if others else 0,
-              '_context_cache may be filled only by get_module', nontrivial=False)
-    res.count('context_cache_stores', len(stores), floor=1)
+    # decided by the history model below: both lookups of a request (the second one goes through the per-request table) must
+    # serve the analysis of the current file content, and the module must keep its identity within the request.  (The former
+    # structural form of this rule - "the store sits in the else-branch of `if m.changed` inside get_module" - alarmed on a
+    # behaviour-preserving split of get_module into helpers and was withdrawn.)
     # ---- R5 the cache protocol itself, interpreted over edit histories on a modelled file system -------------------
     from .. import api_model
     depth = 5 if getattr(repo, 'tier', 'quick') == 'thorough' else 3
-    api_model.apply(res, api_model.cache_history_model(repo, depth), {'history': 'C09-R5', 'history-count': 'C09-R5', 'identity': 'C09-R3'}, PROJECT, 0)
+    api_model.apply(res, api_model.cache_history_model(repo, depth), {'history': 'C09-R5', 'history-count': 'C09-R5', 'identity': 'C09-R3', 'second-lookup': 'C09-R3'}, PROJECT, 0)
     res.assumptions.extend(['a validity predicate that iterates/recurses over recorded modules is taken to be dependency aware',
                             'mtime granularity, deletions and shadowing are outside the property domain'])
